@@ -72,13 +72,15 @@ void InvariantMixedDiscreteDistribution::updateDistribution()
   // if invariant_ is between 2 values of dist_, bounds_ are set in the
   // middle of the 3 values
 
-  if (distribution_.size() == distNCat)
+  if (distribution_.size() != distNCat + 1)
   {
-    // The invariant is (equivalent to) a class value of the nested distribution: no class is
-    // added, the bounds are those of the nested distribution.
-    for (size_t i = 0; i + 1 < distNCat; i++)
+    // Class values were merged by the tolerance of the map (the invariant with a class value of
+    // the nested distribution, or class values of a nested distribution with a finer precision):
+    // the bounds are the midpoints of the remaining class values, as for a mixture.
+    vector<double> values = MapTools::getKeys<double, double, AbstractDiscreteDistribution::Order>(distribution_);
+    for (size_t i = 0; i + 1 < values.size(); i++)
     {
-      bounds_.push_back(dist_->getBound(i));
+      bounds_.push_back((values[i] + values[i + 1]) / 2.);
     }
     return;
   }
